@@ -361,7 +361,7 @@ fn forward_strategy() -> impl Strategy<Value = Forward> {
             let spec = Spec {
                 parser,
                 lit,
-                flag: flag && parser.is_dimacs(),
+                flag: flag && Spec::flag_applies(parser),
             };
             (
                 Just(spec),
